@@ -11,8 +11,9 @@ ASSUMPTIONS = [
     'sizes are positive integers, rate >= 0, an `out` is attached',
     'theorems are over exact rationals; the replay compares IEEE doubles bit for bit',
     'RED: the uniform draws are inputs of the model (recorded from the implementation); nothing is claimed about their distribution',
-    'the port process on the real kernel refines the FifoServer LTS: checked by replay (labels from Process.target); proved for the plain Port '
-    '(qlimit None, rate > 0, one source) as a process on the kernel *model* K (Props/C09K.lean), not for the other variants',
+    'the port process on the real kernel refines the FifoServer LTS: checked by replay (labels from Process.target); proved for the Port without RED '
+    '(qlimit None or a byte limit, every rate, one source) as a process on the kernel *model* K (Props/C09K.lean); '
+    'not for the packet-count limit and RED',
 ]
 EXTRA_MODULES = ('OnlVerif.Props.C09K',)
 TRUSTED_EXTRA = ['the kernel guarantees (G1-G3) that make `tick` admissible only at quiescence are theorems of model K (C01), assumed for the device LTS']
